@@ -253,6 +253,79 @@ theorem ascii_wf (s : String) : WF (asciiSql s) := by
     simp only [asciiCh, Bool.or_eq_true, Bool.and_eq_true, decide_eq_true_eq, isDigit] at h ⊢
     constructor <;> intro hc <;> subst hc <;> revert h <;> decide
 
+/-! ### positions reported later: Parser.raise_error and Expression.update_positions -/
+
+/-- the token `raise_error` describes: the explicit argument, else `_curr`, else `_prev` -/
+theorem raise_error_token_priority (t c p : Tok) (oc op : Option Tok) :
+    chooseTok (some t) oc op = t ∧ chooseTok none (some c) op = c ∧ chooseTok none none (some p) = p := ⟨rfl, rfl, rfl⟩
+
+/-- `Parser.raise_error`: line/col are the chosen token's, the highlight is exactly sql[token.start .. token.end], the
+    contexts are the (at most `error_message_context`) characters before and after it -/
+theorem raise_error_selects_token (sql : List Char) (token curr prev : Option Tok) (ctx : Nat)
+    (h1 : (chooseTok token curr prev).start ≤ (chooseTok token curr prev).stop)
+    (h2 : (chooseTok token curr prev).stop < sql.length) :
+    (raiseError sql token curr prev ctx).line = (chooseTok token curr prev).line ∧
+    (raiseError sql token curr prev ctx).col = (chooseTok token curr prev).col ∧
+    (raiseError sql token curr prev ctx).highlight =
+      pySlice sql (chooseTok token curr prev).start ((chooseTok token curr prev).stop + 1) ∧
+    (raiseError sql token curr prev ctx).startCtx =
+      pySlice sql ((chooseTok token curr prev).start - ctx) (chooseTok token curr prev).start ∧
+    (raiseError sql token curr prev ctx).endCtx =
+      pySlice sql ((chooseTok token curr prev).stop + 1) ((chooseTok token curr prev).stop + 1 + ctx) ∧
+    (raiseError sql token curr prev ctx).startCtx.length ≤ ctx ∧ (raiseError sql token curr prev ctx).endCtx.length ≤ ctx := by
+  obtain ⟨a, _, c, d⟩ := highlight_selects sql _ _ ctx h1 h2
+  obtain ⟨e, f, _⟩ := highlight_context_bounds sql _ _ ctx h1 h2
+  exact ⟨rfl, rfl, a, c, d, e, f⟩
+
+/-- END TO END (tokenizer + parser error): an error raised on a token of a complete run of `lex` highlights exactly that
+    token's lexeme and reports the reference line / column of the lexeme's last character -/
+theorem raise_error_on_lexed_token (cfg : Cfg) (sql : Sql) (st : St) (t : Tok) (curr prev : Option Tok) (ctx : Nat)
+    (hC : cleanCfg cfg = true) (hW : WF sql) (h : lex cfg sql = .ok st) (ht : t ∈ st.toks) :
+    (raiseError (sqlText sql) (some t) curr prev ctx).highlight = slice sql t.start (t.stop + 1) ∧
+    (raiseError (sqlText sql) (some t) curr prev ctx).line = lineOf sql t.stop ∧
+    (raiseError (sqlText sql) (some t) curr prev ctx).col + crlfAdj sql t.stop = colOf sql t.stop ∧
+    (raiseError (sqlText sql) (some t) curr prev ctx).startCtx.length ≤ ctx ∧
+    (raiseError (sqlText sql) (some t) curr prev ctx).endCtx.length ≤ ctx := by
+  have hb := lex_tokens_inside cfg sql st hW h t ht
+  have hl := lex_line_col_exact cfg sql st hC hW h t ht
+  have := raise_error_selects_token (sqlText sql) (some t) curr prev ctx hb.1 (by rw [sqlText_length]; exact hb.2)
+  obtain ⟨r1, r2, r3, _, _, r6, r7⟩ := this
+  refine ⟨by rw [r3, slice_eq_pySlice]; rfl, by rw [r1]; exact hl.1, by rw [r2]; exact hl.2, r6, r7⟩
+
+/-- `update_positions(token)`: the four position keys become exactly the token's -/
+theorem update_positions_token (m : Meta) (t : Tok) :
+    updatePositions m (.token t) = ⟨some (some t.line), some (some t.col), some (some t.start), some (some t.stop)⟩ := rfl
+
+/-- `update_positions(other_expr)` copies a complete set of positions unchanged (so positions handed from node to node, as
+    the BigQuery table-part code does, still denote the original token), and an expression without meta changes nothing -/
+theorem update_positions_copy (m m0 : Meta) (t : Tok) :
+    updatePositions m (.expr (some (updatePositions m0 (.token t)))) = updatePositions m (.token t) ∧
+    updatePositions m (.expr none) = m := ⟨rfl, rfl⟩
+
+/-- END TO END (tokenizer + `Parser.expression(node, token)`): the meta of a node built from a token of a complete run covers
+    exactly that token — start ≤ end inside the input, and line/col are the reference position of its last character -/
+theorem meta_selects_lexeme (cfg : Cfg) (sql : Sql) (st : St) (t : Tok) (m : Meta)
+    (hC : cleanCfg cfg = true) (hW : WF sql) (h : lex cfg sql = .ok st) (ht : t ∈ st.toks) :
+    (expressionMeta m (some t)).start = some (some t.start) ∧ (expressionMeta m (some t)).stop = some (some t.stop) ∧
+    t.start ≤ t.stop ∧ t.stop < sql.size ∧
+    (expressionMeta m (some t)).line = some (some (lineOf sql t.stop)) ∧
+    (∃ c, (expressionMeta m (some t)).col = some (some c) ∧ c + crlfAdj sql t.stop = colOf sql t.stop) := by
+  have hb := lex_tokens_inside cfg sql st hW h t ht
+  have hl := lex_line_col_exact cfg sql st hC hW h t ht
+  refine ⟨rfl, rfl, hb.1, hb.2, ?_, t.col, rfl, hl.2⟩
+  show some (some t.line) = _
+  rw [hl.1]
+
+/-- STRUCTURE FACTS (read with `ast` from the source on each run): the pieces of `Parser.raise_error`, `Parser.expression` and
+    POSITION_META_KEYS that the model mirrors are still what the model assumes -/
+theorem generated_positions_shape_ok :
+    positionMetaKeys = ["line", "col", "start", "end"] ∧
+    raiseErrorShape = ["token = token or self._curr or self._prev or Token.string('')",
+      "highlight_sql:context_length=self.error_message_context", "highlight_sql:positions=[(token.start, token.end)]",
+      "highlight_sql:sql=self.sql", "ParseError.new:col=token.col", "ParseError.new:end_context=end_context",
+      "ParseError.new:highlight=highlight", "ParseError.new:line=token.line", "ParseError.new:start_context=start_context",
+      "expression: if token: instance.update_positions(token)"] := by decide
+
 /-! ### non-vacuity and witnesses (complete evaluations of the model on concrete inputs, `decide +kernel`) -/
 
 /-- the hypotheses of `highlight_selects` are satisfiable and the result is the expected lexeme -/
@@ -270,6 +343,11 @@ example :
 example : WF (asciiSql "select a\r\n , 'x\ny' -- c\rfrom t") ∧
     (runSummary baseCfg "select a\r\n , 'x\ny' -- c\rfrom t").isSome = true :=
   ⟨ascii_wf _, by decide +kernel⟩
+
+/-- 0x / 0b literals (dialects that have them) are inside the model: `int(value, base)` decides HEX_STRING vs IDENTIFIER -/
+example :
+    (runSummary { baseCfg with hasHex := true, hasBit := true } "0x1F 0b12 0X_ff x").map (fun r => (r.1, r.2.map (·.1))) =
+      some (false, ["HEX_STRING", "IDENTIFIER", "HEX_STRING", "VAR"]) := by decide +kernel
 
 /-- CLEAN-TREE DEFECT 1 (DESIGN §6): a lone CR inside a simple string literal.  With the str.find fast path as it is today
     the string and the following token are reported on line 1; their end offsets are on line 2
